@@ -133,6 +133,12 @@ CHECKS.update({
             "Exhaustive over the byte positions of each log tail; histories are sampled. Runs without Open's replay (tag-guarded accessor to iterate); Open-level recovery of damaged logs is C09.", "3/C16"),
 })
 
+CHECKS.update({
+    "C35": ("exploration", "generated open/close orderings across two real processes checked against a lock-table model",
+            "Sequences of read-write / read-only opens and closes by handles in this process and in a helper child process on shared and separate Dir/ValueDir layouts; a lock-table model decides for every Open whether it must succeed or fail, and every Close must release the lock.",
+            "No simulated scheduler: the quantifier is over call orderings, which are generated and replayable; the child process is real (flock semantics come from the kernel).", "3/C35"),
+})
+
 PENDING = {}  # property -> reason while not yet implemented
 
 def main():
